@@ -102,6 +102,7 @@ func VerifC05_SignVerifyPlain() {
 	verif_Assert(merr != nil, "changing a single signed value makes verification fail")
 }
 
+// c05extAd: k is the provider named by the ad (its entry is the "main" entry)
 func c05extAd(k c05key, eps []c05key, mainAt int) *Advertisement {
 	ad := c05ad(k.id.String())
 	xp := &ExtendedProvider{Override: verif_Bool("override")}
@@ -121,8 +122,13 @@ func c05extAd(k c05key, eps []c05key, mainAt int) *Advertisement {
 func VerifC05_SignVerifyExtended() {
 	k := c05newKey()
 	x := c05newKey()
+	// the advertisement may be signed by a publisher key other than the provider's
+	signer := k
+	if verif_Bool("publisherKeyDiffersFromProvider") {
+		signer = c05newKey()
+	}
 	ad := c05extAd(k, []c05key{x}, verif_Choose("mainPosition", 0, 1))
-	err := ad.SignWithExtendedProviders(k.priv, func(id string) (crypto.PrivKey, error) {
+	err := ad.SignWithExtendedProviders(signer.priv, func(id string) (crypto.PrivKey, error) {
 		verif_Assert(id == x.id.String(), "key fetcher asked only for extended providers other than the main one")
 		return x.priv, nil
 	})
@@ -130,7 +136,7 @@ func VerifC05_SignVerifyExtended() {
 	id, verr := ad.VerifySignature()
 	verif_Reach("verified")
 	verif_Assert(verr == nil, "an advertisement with correctly signed extended providers verifies")
-	verif_Assert(id == k.id, "verification returns the peer ID of the signing key")
+	verif_Assert(id == signer.id, "verification returns the peer ID of the signing key")
 
 	xi := 0
 	for i := range ad.ExtendedProvider.Providers {
